@@ -25,3 +25,4 @@ pub mod c13;
 pub mod c14;
 pub mod c19;
 pub mod c20;
+pub mod tiny;
